@@ -69,6 +69,23 @@ def scoping2():
                 yield ("scope2#%d %s-%s" % (n, order[0], order[1]), {"build.ninja": top, "a.ninja": a, "b.ninja": b})
 
 
+def version_scope():
+    """`$^` needs `ninja_required_version >= 1.14` "in the build file": a parent and two files it includes / subninjas,
+    each declaring 1.14, 1.13 or nothing and each using `$^` or not, in every order of the two kinds."""
+    n = 0
+    decls = ["", "ninja_required_version = 1.14\n", "ninja_required_version = 1.13\n"]
+    for k1, k2 in itertools.product(("include", "subninja"), repeat=2):
+        for dt, da, db in itertools.product(decls, repeat=3):
+            for ut, ua, ub in itertools.product((False, True), repeat=3):
+                if not (ut or ua or ub):
+                    continue
+                def body(tag, use):
+                    return "rule r%s\n  command = c%s%s\nbuild o%s: r%s i\n" % (tag, tag, "$^second line" if use else "", tag, tag)
+                top = dt + "%s a.ninja\n%s b.ninja\n" % (k1, k2) + body("t", ut)
+                n += 1
+                yield ("version#%d %s-%s" % (n, k1, k2), {"build.ninja": top, "a.ninja": da + body("a", ua), "b.ninja": db + body("b", ub)})
+
+
 def path_scope():
     """Variables inside the paths of a build statement, bound at file level, in the build block, or both: every
     path position (output, implicit output, input, implicit, order-only, validation) sees the build block."""
